@@ -1066,6 +1066,7 @@ where
                     result.union_operand(first.clone());
                     ClassSetOperator::Intersection
                 } else {
+                    result.union_operand(first.clone());
                     result.codepoints.add_one(0x26 /* & */);
                     ClassSetOperator::Union
                 }
